@@ -5,7 +5,8 @@ keygen_from_seed and of try_keygen_with_rng (working and failing generator):
   K1  sources: try_keygen_with_rng makes exactly one generator request, of 32 bytes filling xi, and
       feeds exactly that buffer to the same key_gen_internal instance keygen_from_seed calls;
       the two runs build identical lists of hash instances (kind, absorbed shapes, reads);
-      a failing generator yields Err with no hash instance created; nothing unmodelled is called.
+      a failing generator yields Err with no hash instance created; a working one yields Ok for every
+      drawn value (no seed is refused); nothing unmodelled is called.
   K2  (rho, rho', K) = H(xi | k | l) read as 32 | 64 | 32 bytes at offsets 0, 32, 96 (Alg. 6 line 1),
       with the constants k and l of FIPS 204 Table 1 in this order.
   K3  A-hat = ExpandA(rho): k*l SHAKE128 instances, instance (r, s) absorbs rho | s | r, row-major.
@@ -139,6 +140,10 @@ def main(tier):
         ob(a == b and len(a) == 2 + k * l + k + l, "K1:same-hash-instances", {"rule": "K1 the seeded and the generator-driven run create identical hash instances (kind, absorbed shapes, reads)",
                                                                               "set": s, "seeded": len(a), "rng_driven": len(b), "expected": 2 + k * l + k + l,
                                                                               "first_difference": next(((x, y) for x, y in zip(a, b) if x != y), None)})
+        rr = J["rng"]["result"]
+        ob(isinstance(rr, dict) and sorted(rr.get("enum", {}).keys()) == ["v0"], "K1:rng-success-is-ok",
+           {"rule": "K1 with a working generator try_keygen_with_rng returns Ok for every 32 bytes drawn (keygen_from_seed is total: no drawn value is refused)", "set": s,
+            "entry": J["rng"]["root"], "abstract_result": J["rng"]["partitions"]})
         fe = J["rngfail"]
         okf = isinstance(fe["result"], dict) and list(fe["result"].get("enum", {}).keys()) == ["v1"] and not absorb.sites(fe, "xof")
         ob(okf, "K1:rng-failure-is-err", {"rule": "K1 a failing generator gives Err and no key material is computed", "set": s, "result": fe["partitions"]})
